@@ -102,6 +102,10 @@ KERNELS = {
              'allocation depends on); dce.Info.getDeps must return the sorted list for every subset of 5 dependencies and every order; sources.Sources.Sort must give descending name order for every permutation of 4 files. '
              'Whole-compiler determinism (go/types, translator state) is not encodable: it is only observed by repeated builds in fresh processes (GOMAXPROCS varied, files listed in both orders, with and without -m) compared byte for byte. '
              'Sites without a harness are listed in the evidence.', 'DESIGN.md §4 C17'),
+ 'C12': kern('go/parser runs inside the go/ssa interpreter on an original file that contains every kind of declaration the merge distinguishes (function, generic function, type with value and pointer methods, multi-value and single-call var specs, '
+             'constant, blank / dot / single-use imports, untouched declarations) and on an overlay assembled from SYMBOLIC CHOICES per name (absent / replaced / keep-original / purge / override-signature: all 1944 combinations, each a solver-enumerated path); '
+             'the real augmentOverlayFile, augmentOriginalImports, augmentOriginalFile with pruneImports, finalizeRemovals and the astutil directive matcher are executed on the parsed trees, and the merged declaration multiset, the origin of each survivor, '
+             'the rewritten signature, the imports of both files and the order / initial values of untouched declarations are compared with the documented merge.', 'DESIGN.md §4 C12'),
 }
 NA_DEFAULT = 'check not built yet in this session (work in progress; see DESIGN.md §8)'
 NA = {'C12': 'the overlay merge (build.augment*, pruneImports, finalizeRemovals) rewrites go/ast trees produced by go/parser and matches directives with regular expressions; the symbolic input would have to be whole parsed files, and a concrete enumeration of declaration-shape pairs would be testing, not solving; only name equality could be solver-quantified. Not claimed (DESIGN.md section E); the real overlay merge of math, math/bits, unicode and sync/atomic is exercised by every C13 run.'}
